@@ -397,6 +397,13 @@ func (fr *Frame) loopHead(li *loopInfo, st *State, reach *Term, preds []*ssa.Bas
 		}
 		c.havoc(st, k)
 	}
+	// facts about never-reassigned package variables (error sentinels, constant slices) hold in every state
+	for _, k := range ks {
+		if strings.HasPrefix(k, "P:") || strings.Contains(k, "RFC6749Error") {
+			c.V.assumeGlobalAxioms(c, st, reach)
+			break
+		}
+	}
 	li.phiVals = map[*ssa.Phi]*Val{}
 	for _, phi := range phis {
 		v := c.freshVal(fr.fn.Name()+"_"+phi.Name(), phi.Type())
@@ -1125,14 +1132,7 @@ func (fr *Frame) execSlice(i *ssa.Slice, st *State, reach *Term) {
 		}
 		c.addObl(fr, &Obligation{Kind: "safety", Site: fmt.Sprintf("slice@%s", fr.posShort(i.Pos())), Clause: "slice bounds in range",
 			Guard: reach, Goal: mk(SBool, "(and (<= 0 %s) (<= %s %s))", lo.S, lo.S, hi.S)})
-		n := c.sc.freshConst(fr.fn.Name()+"_"+i.Name(), SSl)
-		c.sc.assert(tImp(reach, tEq(tApp(SInt, "slen", n), mk(SInt, "(- %s %s)", hi.S, lo.S))))
-		if es, ok := sortOf(xt.Elem()); ok {
-			at := atFun(c, es)
-			c.sc.assert(mk(SBool, "(forall ((i Int)) (! (=> (and (<= 0 i) (< i (- %s %s))) (= (%s %s i) (%s %s (+ %s i)))) :pattern ((%s %s i))))",
-				hi.S, lo.S, at, n.S, at, x.T.S, lo.S, at, n.S))
-		}
-		fr.setVal(i, scalar(n, i.Type()))
+		fr.setVal(i, scalar(c.subSlice(x.T, lo, hi, xt.Elem()), i.Type()))
 	case *types.Pointer: // *array
 		arr := xt.Elem()
 		v := c.arraySnapshot(st, x.T, arr)
@@ -1204,4 +1204,15 @@ func (fr *Frame) execNext(i *ssa.Next, st *State, reach *Term) {
 		return fr.named(i, tSelect(tSelect(c.get(st, key, ks), rs.x.T), k))
 	})
 	fr.setVal(i, &Val{Typ: i.Type(), Fs: []*Val{scalar(ok, types.Typ[types.Bool]), scalar(k, m.Key()), v}})
+}
+
+// subSlice is s[lo:hi] as a function of its operands (so that code and contracts denote the same value).
+func (c *Ctx) subSlice(s, lo, hi *Term, elem types.Type) *Term {
+	c.sc.declareFun("subsl", []Sort{SSl, SInt, SInt}, SSl)
+	c.sc.axiomOnce("(forall ((s Sl) (a Int) (b Int)) (! (=> (and (<= 0 a) (<= a b)) (= (slen (subsl s a b)) (- b a))) :pattern ((subsl s a b))))")
+	if es, ok := sortOf(elem); ok {
+		at := atFun(c, es)
+		c.sc.axiomOnce(fmt.Sprintf("(forall ((s Sl) (a Int) (b Int) (i Int)) (! (=> (and (<= 0 i) (< i (- b a))) (= (%s (subsl s a b) i) (%s s (+ a i)))) :pattern ((%s (subsl s a b) i))))", at, at, at))
+	}
+	return tApp(SSl, "subsl", s, lo, hi)
 }
